@@ -3,9 +3,11 @@ package c19
 import (
 	"bufio"
 	"bytes"
+	"context"
 	"encoding/json"
 	"fmt"
 	"io"
+	"net"
 	"net/http"
 	"os"
 	"strings"
@@ -94,14 +96,33 @@ func (l *serverLog) feed(rd io.Reader, passthrough io.Writer) {
 	}
 }
 
-// take returns and clears the panic reports seen so far (a report still being received is closed).
-func (l *serverLog) take() []string {
-	l.mu.Lock()
-	defer l.mu.Unlock()
+// closeOpen closes a report that is still being received.
+func (l *serverLog) closeOpen() {
 	if l.in {
 		l.panics = append(l.panics, strings.Join(l.cur, "\n"))
 		l.in, l.cur = false, nil
 	}
+}
+
+// takeFor returns (and removes) the panic report of the connection with the given client address ("" = none found).
+func (l *serverLog) takeFor(addr string) string {
+	l.mu.Lock()
+	defer l.mu.Unlock()
+	l.closeOpen()
+	for i, p := range l.panics {
+		if strings.Contains(firstLineWith(p, "panic serving"), "panic serving "+addr+":") {
+			l.panics = append(l.panics[:i:i], l.panics[i+1:]...)
+			return p
+		}
+	}
+	return ""
+}
+
+// takeAll returns and clears every report nobody claimed.
+func (l *serverLog) takeAll() []string {
+	l.mu.Lock()
+	defer l.mu.Unlock()
+	l.closeOpen()
 	out := l.panics
 	l.panics = nil
 	return out
@@ -143,6 +164,33 @@ func theNode(h *harness) *nodeFixture {
 	nodeOnce.Do(func() {
 		f := &nodeFixture{rt: &scriptedTransport{routes: map[string]scriptedResponse{}}, log: &serverLog{}}
 		client.DefaultCachingTransport = f.rt
+		// HTTP clients that are built from client.SafeHttpTransport (the IAM client) cannot take a RoundTripper: their connections are
+		// redirected, for every host except the node itself, to a local server that answers from the same script.
+		ln, err := net.Listen("tcp", "127.0.0.1:0")
+		if err != nil {
+			h.r.Fatalf("listen: %v", err)
+		}
+		srv := &http.Server{Handler: http.HandlerFunc(func(w http.ResponseWriter, r *http.Request) {
+			u := *r.URL
+			u.Scheme, u.Host = "https", r.Host
+			resp, _ := f.rt.RoundTrip(&http.Request{URL: &u})
+			if ct := resp.Header.Get("Content-Type"); ct != "" {
+				w.Header().Set("Content-Type", ct)
+			}
+			w.WriteHeader(resp.StatusCode)
+			_, _ = io.Copy(w, resp.Body)
+		})}
+		go func() { _ = srv.Serve(ln) }()
+		h.t.Cleanup(func() { _ = srv.Close() })
+		dialer := &net.Dialer{Timeout: 5 * time.Second}
+		toScript := func(ctx context.Context, network, addr string) (net.Conn, error) {
+			if host, _, _ := net.SplitHostPort(addr); host == "localhost" || host == "127.0.0.1" {
+				return dialer.DialContext(ctx, network, addr)
+			}
+			return dialer.DialContext(ctx, "tcp", ln.Addr().String())
+		}
+		client.SafeHttpTransport.DialContext = toScript
+		client.SafeHttpTransport.DialTLSContext = toScript // https:// URLs are spoken in clear text to the scripted server
 		// the servers' error log goes to the os.Stdout of the moment they are created: give them a pipe for the duration of the start
 		realStdout := os.Stdout
 		pr, pw, err := os.Pipe()
@@ -151,8 +199,13 @@ func theNode(h *harness) *nodeFixture {
 		}
 		go f.log.feed(pr, realStdout)
 		os.Stdout = pw
-		f.n = node.Start(h.t, node.Options{DIDMethods: []string{"web"}, Verbosity: "error", Env: map[string]string{"NUTS_HTTP_CACHE_MAXBYTES": "0"},
-			Config: "discovery:\n  definitions:\n    directory: " + discoveryDir(h) + "\n  server:\n    ids:\n      - c19-service\n"})
+		f.n = node.Start(h.t, node.Options{DIDMethods: []string{"web"}, Verbosity: "error", Env: map[string]string{
+			"NUTS_HTTP_CACHE_MAXBYTES":                "0",
+			"NUTS_DISCOVERY_DEFINITIONS_DIRECTORY":    discoveryDir(h),
+			"NUTS_DISCOVERY_SERVER_IDS":               "c19-service",
+			"NUTS_POLICY_DIRECTORY":                   policyDir(h),
+			"NUTS_AUTH_AUTHORIZATIONENDPOINT_ENABLED": "true",
+		}})
 		os.Stdout = realStdout
 		f.verifier = node.Engine[vcr.VCR](f.n).Verifier()
 		f.db = node.Engine[storage.Engine](f.n).GetSQLDatabase()
